@@ -16,6 +16,7 @@ Vocabulary (defined in the lemma files, repeated here for the reader):
 -/
 import GemseoVerif.Lemmas.C11Inv
 import GemseoVerif.Lemmas.C11Ds
+import GemseoVerif.Lemmas.C11Pb
 
 namespace GV.C11
 
@@ -287,5 +288,118 @@ example : DVarWF ⟨"x_shared", 2, false, [none, some 0], [some 1, none], some [
 theorem csv_rejects_non_consecutive :
     dsFromRows [⟨"x", none, none, none, false⟩, ⟨"y", none, none, none, false⟩,
                 ⟨"x", none, none, none, false⟩] = none := by decide
+
+/-! ### Optimization problems: attribute groups, function descriptions, statement order -/
+
+/-- **attribute_roundtrip.** For EVERY Python value handed to `store_attr_h5data`, reading the
+    dataset back with `convert_h5_group_to_dict` gives the value itself, unless the value is `None`
+    or an empty string / list / array (then nothing is written). In particular a list of strings
+    comes back as a list whatever its length, and the falsy scalars come back. -/
+theorem attribute_roundtrip (v : PyV) :
+    (storeAttr v).map readAttr = if v.isEmpty then none else some v := attr_roundtrip v
+
+/-- **falsy_scalars_are_written.** `0`, `0.0` and `False` are written (only `None` and the empty
+    iterables are skipped): a solution whose optimum is the first iterate (`optimum_index = 0`), whose
+    objective is `0.0`, whose status is `0` or which is infeasible reloads with these values. -/
+theorem falsy_scalars_are_written :
+    (storeAttr (.int 0)).map readAttr = some (.int 0) ∧
+    (storeAttr (.flt 0)).map readAttr = some (.flt 0) ∧
+    (storeAttr (.bool false)).map readAttr = some (.bool false) ∧
+    (storeH5 (.flt 0)).map readAttr = some (.flt 0) ∧
+    (storeH5 (.bool false)).map readAttr = some (.bool false) := by
+  refine ⟨rfl, rfl, rfl, rfl, rfl⟩
+
+/-- **function_description_roundtrip.** Every function description (any name, type, expression,
+    special representation, ANY lists of input and output names — empty, one name of one or several
+    characters, several names —, any dimension) written with `MDOFunction.to_dict` +
+    `store_attr_h5data` and read with `convert_h5_group_to_dict` + `init_from_dict_repr` is the
+    same description. -/
+theorem function_description_roundtrip (f : FuncDesc) (hn : f.name ≠ "") :
+    funcFromDict (readGroup (writeGroup (funcToDict f))) = some f := function_roundtrip f hn
+
+example : funcFromDict (readGroup (writeGroup (funcToDict
+      ⟨"obj", "obj", "alpha**2", ["alpha"], 1, "", ["obj_out"]⟩)))
+    = some ⟨"obj", "obj", "alpha**2", ["alpha"], 1, "", ["obj_out"]⟩ :=
+  function_description_roundtrip _ (by decide)
+
+/-- **collapsed_single_name_is_split.** Why `convert_h5_group_to_dict` must not collapse a one-item
+    array of strings to its item (`value[0] if value.size == 1`, the behaviour before the repair):
+    the function then receives a *string* for `input_names`, `list(string)` has one entry per
+    character, so the single name `s` comes back as `s.length` names — the same list only when the
+    name has exactly one character. -/
+theorem collapsed_single_name_is_split (s : String) (h : s.length ≠ 1) :
+    pyListOfNames (some (readAttrCollapsing (.sarr [s]))) ≠ [s] := by
+  intro he
+  have := congrArg List.length he
+  simp only [readAttrCollapsing, length_pyListOfNames_str, List.length_singleton] at this
+  exact h this
+
+example : pyListOfNames (some (readAttrCollapsing (.sarr ["ab"]))) = ["a", "b"] := by decide
+
+/-- **problem_description_roundtrip.** For every well-formed problem description — minimization or
+    maximization, LINEAR or not, any differentiation method and step, any tolerances (0 included),
+    any function descriptions, any number of constraints and observables, any solution fields
+    (falsy scalars included) — `from_hdf (to_hdf p) = p`: same description, same functions in the
+    same order, same solution. -/
+theorem problem_description_roundtrip (p : PbDesc) (wf : PbWF p) :
+    (pbToHdf p).bind pbFromHdf = some p := pbFromHdf_pbToHdf p wf
+
+/-- A linear maximization problem with zero tolerances, two constraints, an observable and a
+    solution found at the first iterate with a zero objective is well formed. -/
+def demoPb : PbDesc :=
+  { minimize := false, isLinear := true, diffMethod := "finite_differences", diffStep := 1 / 1024,
+    ineqTol := 0, eqTol := 0,
+    objective := ⟨"-cost", "obj", "", ["alpha"], 1, "", ["y_1"]⟩,
+    constraints := [⟨"g", "ineq", "x+y", ["x", "y_long"], 2, "g(x, y_long) <= 0", ["o", "lift"]⟩,
+                    ⟨"B", "eq", "", ["alpha"], 1, "", []⟩],
+    observables := [⟨"obs", "obs", "", [], 0, "", ["a", "b", "c"]⟩],
+    solution := some [("f_opt", .flt 0), ("optimum_index", .int 0), ("status", .int 0),
+                      ("is_feasible", .bool false), ("message", .str "ok"),
+                      ("x_opt", .nums ⟨[2], [0, 0]⟩)] }
+
+example : PbWF demoPb := by
+  refine ⟨by decide, by decide, by decide, by decide, by decide, by decide, by decide, ?_⟩
+  intro l hl nv hnv
+  simp only [demoPb, Option.some.injEq] at hl
+  subst hl
+  simp only [List.mem_cons, List.not_mem_nil, or_false] at hnv
+  rcases hnv with rfl | rfl | rfl | rfl | rfl | rfl <;> rfl
+
+example : ((pbToHdf demoPb).bind pbFromHdf).map (·.isLinear) = some true := by decide
+
+/-- **objective_setter_after_description_loses_linearity.** The statement order of `from_hdf`
+    matters: with the objective setter moved after the loop over `opt_description` the reloaded
+    problem is never linear — the setter resets the flag whenever the function is not an
+    `MDOLinearFunction`, and a reloaded function never is. -/
+theorem objective_setter_after_description_loses_linearity (p : PbDesc) (wf : PbWF p) :
+    (pbToHdf p).bind pbFromHdfObjectiveLast = some { p with isLinear := false } :=
+  pbFromHdfObjectiveLast_pbToHdf p wf
+
+/-! ### HDF5 caches: sparse Jacobian blocks -/
+
+/-- **sparse_block_roundtrip.** For every matrix (any number of rows and columns, square or
+    rectangular, any zero pattern — empty rows, full rows —) the CSR pieces written by
+    `__write_sparse_array` (stored coefficients, `indices`, `indptr`, `shape`) are read back by
+    `__read_sparse_array` as the same matrix. -/
+theorem sparse_block_roundtrip (nrows ncols : Nat) (m : Mat) (hc : ∀ r ∈ m, r.length = ncols) :
+    readSparse (writeSparse nrows ncols m) = m := readSparse_writeSparse nrows ncols m hc
+
+example : readSparse (writeSparse 2 3 [[0, 7, 0], [8, 0, 9]]) = [[0, 7, 0], [8, 0, 9]] :=
+  sparse_block_roundtrip 2 3 _ (by simp)
+
+/-- **csc_kept_as_is_reads_transposed.** Why the conversion `value.tocsr()` must be unconditional: a
+    column-compressed triplet written as it is under the original shape is read back as the
+    TRANSPOSE of the square block that was cached. -/
+theorem csc_kept_as_is_reads_transposed (n : Nat) (m : Mat) (hr : m.length = n) :
+    readSparse (writeCscAsIs n n m) = transposeM n m := by
+  have := readSparse_writeSparse n n (transposeM n m) (fun r h => by rw [transposeM_rect n m r h, hr])
+  simpa [writeCscAsIs, writeSparse, readSparse] using this
+
+/-- A square non-symmetric block comes back different from what was cached. -/
+example : readSparse (writeCscAsIs 2 2 [[1, 2], [0, 3]]) = [[1, 0], [2, 3]] ∧
+    ([[1, 0], [2, 3]] : Mat) ≠ [[1, 2], [0, 3]] := by
+  refine ⟨?_, by decide⟩
+  rw [csc_kept_as_is_reads_transposed 2 _ rfl]
+  decide
 
 end GV.C11
